@@ -34,15 +34,20 @@ fn arg_val(args: &[String], key: &str) -> Option<String> {
 }
 
 fn quick_runs(prop: &str) -> u64 {
+    // sized so that a quick check takes 10-20 s on 16 idle cores
     match prop {
-        "C20" => 1600,
-        _ => 3000,
+        "C20" => 2400,
+        "C01" | "C02" | "C13" | "C19" => 3000,
+        "C07" | "C08" | "C16" | "C17" => 8000,
+        "C11" | "C12" | "C18" => 6000,
+        _ => 5000,
     }
 }
 
 fn thorough_runs(prop: &str) -> u64 {
     match prop {
         "C20" => 16000,
+        "C07" | "C08" | "C16" | "C17" => 80000,
         _ => 40000,
     }
 }
